@@ -28,7 +28,13 @@
    time.Time, url.URL, big.Int, big.Float, apd.Decimal, compact DFloat are
    carried as the payload of the event they produce plus their reflect
    IsZero-ness; Go's unicode.ToLower on non-ASCII field names (names are
-   ASCII); custom converters; pointers into the middle of another object
+   ASCII); custom converters; configurations in which a record type is reached statically
+   (through fields, pointers, slices, arrays, maps - not through an interface) from the fields of
+   a record type whose name sorts at the same place or earlier: Session.Init builds the field
+   iterators of each record type, in name order, BEFORE it registers that type, so such inner
+   occurrences are iterated by the plain struct iterator cached at that moment (as maps, not as
+   records); the harness recognises these configurations and keeps them out of the
+   correspondence (its oracle accepts either form); pointers into the middle of another object
    (address of a struct field / slice element held as a pointer elsewhere),
    which FindDuplicatePointers also registers; kinds the iterator panics on
    (chan, func, complex, uintptr, unsafe pointer, embedded non-struct). *)
@@ -211,20 +217,20 @@ Fixpoint bits_byte (l : list bool) (i : N) : N :=
   end.
 
 (* iterateSliceOrArrayBool: the outer loop runs once per output byte; the inner loop reads
-   v.Index(iBit), iBit = 0..bitCount-1, i.e. always the FIRST bitCount elements of the slice
-   (the running source index iSrc is only advanced, never used to index). *)
+   v.Index(iSrc) for the next bitCount elements (iSrc runs over the whole slice; before /repo
+   commit 734b6c6 it read v.Index(iBit), always the first bitCount elements). *)
 Fixpoint pack_bools_loop (v : list bool) (isrc : nat) (nbytes : nat) : bytes :=
   match nbytes with
   | O => []
   | S k =>
       let bitcount := Nat.min 8 (length v - isrc) in
-      bits_byte (firstn bitcount v) 0 :: pack_bools_loop v (isrc + bitcount) k
+      bits_byte (firstn bitcount (skipn isrc v)) 0 :: pack_bools_loop v (isrc + bitcount) k
   end.
 Definition bool_byte_count (n : N) : N := elem_byte_count 1 n.   (* common.ElementCountToByteCount(1, n) *)
 Definition pack_bools (v : list bool) : bytes :=
   pack_bools_loop v 0 (N.to_nat (bool_byte_count (len v))).
 
-(* what the loop was meant to do (used by the statement of the property, not by the model) *)
+(* the same packing by chunks of eight (element i in bit i mod 8 of byte i / 8) *)
 Fixpoint pack_bits (v : list bool) (nbytes : nat) : bytes :=
   match nbytes with
   | O => []
@@ -317,6 +323,11 @@ Definition sorted_items {A} (its : list (gitem A)) : list (gitem A) := sort_by g
 Definition kept_items {A} (its : list (gitem A)) : list (gitem A) :=
   filter (fun it => snd (fst it)) (sorted_items its).
 
+(* the fields a record type declares, hence the fields every record of the type carries:
+   shouldIncludeField evaluated on reflect.ValueOf(1), which is neither empty nor zero *)
+Definition declared_items (cfg : icfg) {A} (its : list (gitem A)) : list (gitem A) :=
+  filter (fun it => should_include cfg (fst (fst it)) false false) (sorted_items its).
+
 Definition item := gitem (list event).
 
 (* newStructIterator *)
@@ -324,9 +335,10 @@ Definition struct_events (cfg : icfg) (its : list item) : list event :=
   EMap :: flat_map (fun it => EStringArray AT_String (field_name cfg (fst (fst it))) :: snd it) (kept_items its)
        ++ [EEnd].
 
-(* newRecordIterators, recordIterator *)
-Definition record_events (name : bytes) (its : list item) : list event :=
-  ERecord name :: flat_map (fun it => snd it) (kept_items its) ++ [EEnd].
+(* newRecordIterators, recordIterator: the fields the type declares, whatever this value holds
+   in them (since /repo commit 8413af6; before, the fields kept for this value) *)
+Definition record_events (cfg : icfg) (name : bytes) (its : list item) : list event :=
+  ERecord name :: flat_map (fun it => snd it) (declared_items cfg its) ++ [EEnd].
 
 Fixpoint find_record (rs : list rectype) (sid : N) : option rectype :=
   match rs with
@@ -362,7 +374,7 @@ Fixpoint walk (cfg : icfg) (v : gval) {struct v} : list event * list item :=
                 else []) ++ go r
            end) fs in
       (match find_record (c_records cfg) sid with
-       | Some r => record_events (rt_name r) its
+       | Some r => record_events cfg (rt_name r) its
        | None => struct_events cfg its
        end, its)
   | VTime _ t => ([ETime t], [])
@@ -405,11 +417,10 @@ Fixpoint ins_rt (x : rectype) (l : list rectype) : list rectype :=
 (* sort.SliceStable by name; with distinct names the result does not depend on the map order *)
 Definition sort_records (l : list rectype) : list rectype := fold_right ins_rt [] l.
 
-(* typeIterator: shouldIncludeField is evaluated on reflect.ValueOf(1), which is neither empty nor zero *)
+(* typeIterator *)
 Definition decl_keys (cfg : icfg) (r : rectype) : list bytes :=
   map (fun it : item => field_name cfg (fst (fst it)))
-      (filter (fun it : item => should_include cfg (fst (fst it)) false false)
-              (sorted_items (items_of cfg (VStruct (rt_sid r) (rt_proto r))))).
+      (declared_items cfg (items_of cfg (VStruct (rt_sid r) (rt_proto r)))).
 Definition rectype_events (cfg : icfg) (r : rectype) : list event :=
   ERecordType (rt_name r) :: map (fun k => EStringArray AT_String k) (decl_keys cfg r) ++ [EEnd].
 
@@ -482,7 +493,6 @@ Fixpoint named_find (a : N) (l : list (N * N)) : option N :=
 (* an emitter delivers events and either the next state or a panic (None) *)
 Definition emitter := st -> list event * option st.
 Definition emit (es : list event) : emitter := fun s => (es, Some s).
-Definition panic_em : emitter := fun _ => ([], None).
 Definition seq_em (a b : emitter) : emitter :=
   fun s => match a s with
            | (e1, Some s1) => let (e2, r) := b s1 in (e1 ++ e2, r)
@@ -514,8 +524,8 @@ Definition struct_em (cfg : icfg) (its : list ritem) : emitter :=
    (seq_em (seq_all (map (fun it => seq_em (emit [EStringArray AT_String (field_name cfg (fst (fst it)))]) (snd it))
                          (kept_items its)))
            (emit [EEnd])).
-Definition record_em (name : bytes) (its : list ritem) : emitter :=
-  seq_em (emit [ERecord name]) (seq_em (seq_all (map (fun it => snd it) (kept_items its))) (emit [EEnd])).
+Definition record_em (cfg : icfg) (name : bytes) (its : list ritem) : emitter :=
+  seq_em (emit [ERecord name]) (seq_em (seq_all (map (fun it => snd it) (declared_items cfg its))) (emit [EEnd])).
 
 Fixpoint rwalk (cfg : icfg) (dups : list N) (v : gval) {struct v} : emitter * list ritem :=
   match v with
@@ -523,9 +533,9 @@ Fixpoint rwalk (cfg : icfg) (dups : list N) (v : gval) {struct v} : emitter * li
       (with_ref dups a
          (seq_em (emit [EList]) (seq_em (seq_all (map (fun x => fst (rwalk cfg dups x)) es)) (emit [EEnd]))), [])
   | VArray es =>
-      (* newSliceOrArrayAsListIterator calls TryAddLocalReference(v) for arrays too, and
-         duplicates.TypedPointerOfRV calls reflect.Value.Pointer, which panics on an array *)
-      (panic_em, [])
+      (* addLocalReference returns false for arrays (since /repo commit 7f07b92; before, it called
+         reflect.Value.Pointer on the array, which panics) *)
+      (seq_em (emit [EList]) (seq_em (seq_all (map (fun x => fst (rwalk cfg dups x)) es)) (emit [EEnd])), [])
   | VMap a kvs =>
       (with_ref dups a
          (seq_em (emit [EMap])
@@ -545,7 +555,7 @@ Fixpoint rwalk (cfg : icfg) (dups : list N) (v : gval) {struct v} : emitter * li
                 else []) ++ go r
            end) fs in
       (match find_record (c_records cfg) sid with
-       | Some r => record_em (rt_name r) its
+       | Some r => record_em cfg (rt_name r) its
        | None => struct_em cfg its
        end, its)
   | VNode x ch =>
@@ -782,9 +792,12 @@ Definition widen_exact (w : N) : N :=
 Definition elem_pattern (k : akind) (z : Z) : N := Z.to_N (z mod 2 ^ (8 * Z.of_nat (width_of k)))%Z.
 
 Definition citem := gitem dval.
-(* a struct (registered as a record type or not): its kept fields, by emitted name *)
+(* a struct that is not of a registered record type: its kept fields, by emitted name *)
 Definition struct_dval (cfg : icfg) (its : list citem) : dval :=
   DMap (map (fun it => (DString (field_name cfg (fst (fst it))), snd it)) (kept_items its)).
+(* a struct of a registered record type: every field the type declares *)
+Definition record_dval (cfg : icfg) (its : list citem) : dval :=
+  DMap (map (fun it => (DString (field_name cfg (fst (fst it))), snd it)) (declared_items cfg its)).
 
 Fixpoint cwalk (cfg : icfg) (v : gval) {struct v} : dval * list citem :=
   match v with
@@ -811,7 +824,10 @@ Fixpoint cwalk (cfg : icfg) (v : gval) {struct v} : dval * list citem :=
                   else [(i, should_include cfg i (is_empty x) (is_value_zero x), fst (cwalk cfg x))]
                 else []) ++ go r
            end) fs in
-      (struct_dval cfg its, its)
+      (match find_record (c_records cfg) sid with
+       | Some _ => record_dval cfg its
+       | None => struct_dval cfg its
+       end, its)
   | VTime _ t => (DScalar (ETime t), [])
   | VUrl _ t => (DRid t, [])
   | VBigInt _ z => (DScalar (EBigInt (Some z)), [])
@@ -846,25 +862,27 @@ Definition records_ok (cfg : icfg) : bool :=
                     | None => false
                     end) (c_records cfg).
 
-(* [descr cfg v]: v avoids the defect classes of the iterator:
+(* the names of the fields a value of a registered record type carries *)
+Definition record_names (cfg : icfg) (v : gval) : list bytes :=
+  map (fun it : item => field_name cfg (fst (fst it))) (declared_items cfg (items_of cfg v)).
+
+(* [descr cfg v]: v avoids the open defect classes of the iterator:
    - no types.Edge (no end-container event is emitted for it),
-   - no bool slice/array longer than 8 (iterateSliceOrArrayBool re-reads the first 8 elements),
-   - every value of a registered record type keeps exactly the fields its type declares
-     (newRecordIterators decides per value, the type was declared with all),
-   - no signalling float32 NaN (reflect's Float() goes through float64 and quiets it). *)
+   - no signalling float32 NaN (reflect's Float() goes through float64 and quiets it);
+   and v is well-formed: a value of a registered record type has the fields of that type
+   (the same struct type as the registered one), bool slices are shorter than 2^64. *)
 Fixpoint descr (cfg : icfg) (v : gval) {struct v} : bool :=
   match v with
   | VF32 w => negb (is_snan32 w)
   | VNum _ AF32 es => forallb (fun z => negb (is_snan32 (elem_pattern AF32 z))) es
-  | VBools _ l => (length l <=? 8)%nat
+  | VBools _ l => len l <? two64
   | VSlice _ es | VArray es => forallb (descr cfg) es
   | VMap _ kvs => forallb (fun kv => descr cfg (fst kv) && descr cfg (snd kv)) kvs
   | VPtr _ p | VOPtr p | VIface p => descr cfg p
   | VStruct sid fs =>
       forallb (fun iv => descr cfg (snd iv)) fs &&
       match find_record (c_records cfg) sid with
-      | Some r => list_eqb bytes_eqb (decl_keys cfg r)
-                    (map (fun it : item => field_name cfg (fst (fst it))) (kept_items (items_of cfg (VStruct sid fs))))
+      | Some r => list_eqb bytes_eqb (decl_keys cfg r) (record_names cfg (VStruct sid fs))
       | None => true
       end
   | VNode x ch => descr cfg x && match ch with VSlice _ es => forallb (descr cfg) es | _ => true end
@@ -907,8 +925,8 @@ Definition kept_names (cfg : icfg) (v : gval) : list bytes :=
    - containers nest no deeper than the depth limit;
    - map keys are one-event keyable values (bool, integers, string, uid, time) that stay distinct
      as document keys; the emitted field names of a struct are distinct;
-   - a value of a registered record type keeps as many fields as its type declares, and the
-     record name is a valid identifier;
+   - a value of a registered record type has as many declared fields as that type (it is of the
+     registered struct type), and the record name is a valid identifier;
    - no types.Edge (no end-container event is emitted for it).
    Fields that are omitted are required to be acceptable too (simplification). *)
 Fixpoint vok (rc : rcfg) (cfg : icfg) (d : N) (v : gval) {struct v} : bool :=
@@ -930,7 +948,7 @@ Fixpoint vok (rc : rcfg) (cfg : icfg) (d : N) (v : gval) {struct v} : bool :=
       && forallb (fun iv => vok rc cfg (d + 1) (snd iv)) fs
       && match find_record (c_records cfg) sid with
          | Some r => validate_identifier rc (rt_name r)
-                     && (length (kept_names cfg (VStruct sid fs)) =? length (decl_keys cfg r))%nat
+                     && (length (record_names cfg (VStruct sid fs)) =? length (decl_keys cfg r))%nat
          | None => forallb (string_ok rc) (kept_names cfg (VStruct sid fs))
                    && keys_fresh [] (map NkString (kept_names cfg (VStruct sid fs)))
          end
@@ -955,6 +973,116 @@ Definition head_ok (rc : rcfg) (cfg : icfg) : bool :=
                        && forallb (string_ok rc) (decl_keys cfg r)
                        && keys_fresh [] (map NkString (decl_keys cfg r)))
              (c_records cfg).
+
+(* number of events that count as an object for the validator: all but the end-container events *)
+Definition is_end (e : event) : bool := match e with EEnd => true | _ => false end.
+Fixpoint weight (es : list event) : N :=
+  match es with
+  | [] => 0
+  | e :: r => (if is_end e then 0 else 1) + weight r
+  end.
+
+(* ------------------------------------------------------------------------- *)
+(* The whole quantifier of the property (used to state it in full, Props/C05.v) *)
+
+Definition non_nil (v : gval) : bool :=
+  match v with VNilIface | VNilPtr | VNilSlice | VNilMap => false | _ => true end.
+
+(* [supported]: as [vok] but edges are allowed (with a source and a destination) *)
+Fixpoint supported (rc : rcfg) (cfg : icfg) (d : N) (v : gval) {struct v} : bool :=
+  match v with
+  | VString s => string_ok rc s
+  | VUrl _ t => string_ok rc t
+  | VNum _ k es => (len es * 64 <? two64) && length_ok rc (blen (num_bytes k es))
+  | VBools _ l => (len l <? two64) && length_ok rc (blen (pack_bools l))
+  | VMedia _ mt data => utf8_valid mt && (blen data * 8 <? two64) && length_ok rc (blen data)
+  | VSlice _ es | VArray es =>
+      (d + 1 <=? max_container_depth rc) && forallb (supported rc cfg (d + 1)) es
+  | VMap _ kvs =>
+      (d + 1 <=? max_container_depth rc)
+      && forallb (fun kv => is_some (key_of (fst kv)) && supported rc cfg (d + 1) (fst kv) && supported rc cfg (d + 1) (snd kv)) kvs
+      && keys_fresh [] (map (fun kv => key_norm (fst kv)) kvs)
+  | VPtr _ p | VOPtr p | VIface p => supported rc cfg d p
+  | VStruct sid fs =>
+      (d + 1 <=? max_container_depth rc)
+      && forallb (fun iv => supported rc cfg (d + 1) (snd iv)) fs
+      && match find_record (c_records cfg) sid with
+         | Some r => validate_identifier rc (rt_name r)
+                     && (length (record_names cfg (VStruct sid fs)) =? length (decl_keys cfg r))%nat
+         | None => forallb (string_ok rc) (kept_names cfg (VStruct sid fs))
+                   && keys_fresh [] (map NkString (kept_names cfg (VStruct sid fs)))
+         end
+  | VNode x ch =>
+      (d + 1 <=? max_container_depth rc) && supported rc cfg (d + 1) x
+      && match ch with VSlice _ es => forallb (supported rc cfg (d + 1)) es | _ => true end
+  | VEdge a b c =>
+      (d + 1 <=? max_container_depth rc) && non_nil a && non_nil c
+      && supported rc cfg (d + 1) a && supported rc cfg (d + 1) b && supported rc cfg (d + 1) c
+  | _ => true
+  end.
+
+(* no object contains itself (an occurrence whose address is the address of an enclosing object) *)
+Fixpoint acyclic (anc : list N) (v : gval) {struct v} : bool :=
+  match v with
+  | VSlice a es => negb (existsb (N.eqb a) anc) && forallb (acyclic (a :: anc)) es
+  | VArray es => forallb (acyclic anc) es
+  | VMap a kvs => negb (existsb (N.eqb a) anc)
+                  && forallb (fun kv => acyclic (a :: anc) (fst kv) && acyclic (a :: anc) (snd kv)) kvs
+  | VPtr a p => negb (existsb (N.eqb a) anc) && acyclic (a :: anc) p
+  | VOPtr p | VIface p => acyclic anc p
+  | VStruct _ fs => forallb (fun iv => acyclic anc (snd iv)) fs
+  | VNode x ch => acyclic anc x && acyclic anc ch
+  | VEdge a b c => acyclic anc a && acyclic anc b && acyclic anc c
+  | _ => true
+  end.
+
+(* a document with markers and references, read as the value it stands for: every reference is
+   replaced by the marked value (finite unfolding; None when it does not end within the fuel) *)
+Fixpoint marks (v : dval) : list (bytes * dval) :=
+  match v with
+  | DMarked id x => (id, x) :: marks x
+  | DList l => flat_map marks l
+  | DMap kvs => flat_map (fun kv => marks (fst kv) ++ marks (snd kv)) kvs
+  | DNode x ch => marks x ++ flat_map marks ch
+  | DEdge a b c => marks a ++ marks b ++ marks c
+  | _ => []
+  end.
+Fixpoint mark_find (id : bytes) (tbl : list (bytes * dval)) : option dval :=
+  match tbl with
+  | [] => None
+  | (i, x) :: r => if bytes_eqb id i then Some x else mark_find id r
+  end.
+Fixpoint omap {A B} (f : A -> option B) (l : list A) : option (list B) :=
+  match l with
+  | [] => Some []
+  | x :: r => match f x, omap f r with Some y, Some t => Some (y :: t) | _, _ => None end
+  end.
+Fixpoint unref (fuel : nat) (tbl : list (bytes * dval)) (v : dval) : option dval :=
+  match fuel with
+  | O => None
+  | S f =>
+    match v with
+    | DRef id => match mark_find id tbl with Some x => unref f tbl x | None => None end
+    | DMarked _ x => unref f tbl x
+    | DList l => match omap (unref f tbl) l with Some l' => Some (DList l') | None => None end
+    | DMap kvs =>
+        match omap (fun kv => match unref f tbl (fst kv), unref f tbl (snd kv) with
+                              | Some k, Some x => Some (k, x) | _, _ => None end) kvs with
+        | Some kvs' => Some (DMap kvs') | None => None end
+    | DNode x ch =>
+        match unref f tbl x, omap (unref f tbl) ch with
+        | Some x', Some ch' => Some (DNode x' ch') | _, _ => None end
+    | DEdge a b c =>
+        match unref f tbl a, unref f tbl b, unref f tbl c with
+        | Some a', Some b', Some c' => Some (DEdge a' b' c') | _, _, _ => None end
+    | other => Some other
+    end
+  end.
+Definition described_rec (es : list event) : option dval :=
+  match read_doc es with
+  | Some d => unref (S (length es)) (marks d) d
+  | None => None
+  end.
 
 (* ------------------------------------------------------------------------- *)
 (* Correspondence cases: configuration, root value (None = nil), the events the
